@@ -64,6 +64,8 @@ pub struct TProbe {
   pub log: Arc<Mutex<Vec<Ev>>>,
   inside: Arc<SAtomicBool>,
   ctx: Arc<Ctx>,
+  /// run once, from inside the first item delivery (re-entrant subscribe)
+  pub hook: Arc<Mutex<Option<Box<dyn FnOnce() + Send>>>>,
 }
 
 impl TProbe {
@@ -73,7 +75,13 @@ impl TProbe {
       log: Arc::new(Mutex::new(vec![])),
       inside: Arc::new(SAtomicBool::new(false)),
       ctx: ctx.clone(),
+      hook: Arc::new(Mutex::new(None)),
     }
+  }
+  pub fn with_hook(name: &'static str, ctx: &Arc<Ctx>, f: impl FnOnce() + Send + 'static) -> TProbe {
+    let p = TProbe::new(name, ctx);
+    *p.hook.lock().unwrap() = Some(Box::new(f));
+    p
   }
   fn deliver(&self, note: Note) {
     // entry: a controlled atomic (scheduling point before the swap)
@@ -113,6 +121,10 @@ impl TProbe {
 impl Observer<Item, Er> for TProbe {
   fn next(&mut self, v: Item) {
     self.deliver(Note::N(v));
+    let h = self.hook.lock().unwrap().take();
+    if let Some(h) = h {
+      h();
+    }
   }
   fn error(self, e: Er) {
     self.deliver(Note::Err(e));
